@@ -373,11 +373,32 @@ func (c *Ctx) strEqFold(a, b *Term) (*Term, bool) {
 		}
 		return true
 	}
-	if a.IsConst && !b.IsConst && !inOrder(a, b) {
+	ends := func(k *Term, t *Term) bool { // constant first/last pieces must be a prefix/suffix of k
+		ps := c.Flatten(t)
+		if ps[0].IsConst && !strings.HasPrefix(k.S, ps[0].S) {
+			return false
+		}
+		if l := ps[len(ps)-1]; l.IsConst && !strings.HasSuffix(k.S, l.S) {
+			return false
+		}
+		return true
+	}
+	if a.IsConst && !b.IsConst && (!inOrder(a, b) || !ends(a, b)) {
 		return c.False(), true
 	}
-	if b.IsConst && !a.IsConst && !inOrder(b, a) {
+	if b.IsConst && !a.IsConst && (!inOrder(b, a) || !ends(b, a)) {
 		return c.False(), true
+	}
+	// two concatenations with constant suffixes (prefixes) that cannot be aligned
+	if !a.IsConst && !b.IsConst {
+		pa, pb := c.Flatten(a), c.Flatten(b)
+		la, lb := pa[len(pa)-1], pb[len(pb)-1]
+		if la.IsConst && lb.IsConst && !strings.HasSuffix(la.S, lb.S) && !strings.HasSuffix(lb.S, la.S) {
+			return c.False(), true
+		}
+		if pa[0].IsConst && pb[0].IsConst && !strings.HasPrefix(pa[0].S, pb[0].S) && !strings.HasPrefix(pb[0].S, pa[0].S) {
+			return c.False(), true
+		}
 	}
 	return nil, false
 }
@@ -630,21 +651,25 @@ const (
 func (r Result) String() string { return [...]string{"unsat", "sat", "unknown"}[r] }
 
 type Solver struct {
-	Name     string
-	cmd      *exec.Cmd
-	in       io.WriteCloser
-	out      *bufio.Reader
-	ctx      *Ctx
-	declared int
-	Queries  int
-	Time     time.Duration
-	Errors   int
-	LastErr  string
-	Log      io.Writer
-	timeoutS int
-	marker   int
-	Counts   [3]int
+	Name      string
+	cmd       *exec.Cmd
+	in        io.WriteCloser
+	out       *bufio.Reader
+	ctx       *Ctx
+	declared  int
+	Queries   int
+	Time      time.Duration
+	Errors    int
+	LastErr   string
+	Log       io.Writer
+	timeoutS  int
+	marker    int
+	Counts    [3]int
+	Fallbacks int
 }
+
+// SlowLog, when set, receives one line per query slower than 40 ms.
+var SlowLog io.Writer
 
 // NewSolver starts a solver process. kind ∈ cvc5, z3, z3-new.
 func NewSolver(kind string, ctx *Ctx, timeoutS int) (*Solver, error) {
@@ -652,7 +677,9 @@ func NewSolver(kind string, ctx *Ctx, timeoutS int) (*Solver, error) {
 	ms := strconv.Itoa(timeoutS * 1000)
 	switch kind {
 	case "cvc5":
-		cmd = exec.Command("cvc5", "--incremental", "--strings-exp", "--produce-models", "--tlimit-per="+ms, "-q")
+		inc := timeoutS * 1000 / 3
+		cmd = exec.Command("cvc5", "--incremental", "--strings-exp", "--produce-models", "--tlimit-per="+strconv.Itoa(inc), "-q")
+		_ = ms
 	case "z3", "z3-new":
 		cmd = exec.Command(kind, "-in", "-t:"+ms)
 	default:
@@ -769,10 +796,132 @@ func (s *Solver) roundtrip(cmds ...string) []string {
 	}
 }
 
+// oneShot decides a query in fresh, non-incremental processes: cvc5 and z3-new run side by side
+// and the first definitive answer wins (cvc5 is quick on satisfiable string queries, z3 on some
+// unsatisfiable ones with regular expressions that cvc5 does not finish).
+func (s *Solver) oneShot(fs []*Term, want []*Term) (Result, map[*Term]string) {
+	var b strings.Builder
+	b.WriteString("(set-logic ALL)\n")
+	for _, d := range s.ctx.Decls {
+		b.WriteString(d + "\n")
+	}
+	for _, f := range fs {
+		if f.IsConst && f.B {
+			continue
+		}
+		b.WriteString("(assert " + f.str + ")\n")
+	}
+	b.WriteString("(check-sat)\n")
+	var ws []*Term
+	for _, w := range want {
+		if !w.IsConst {
+			ws = append(ws, w)
+			b.WriteString("(get-value (" + w.str + "))\n")
+		}
+	}
+	script := b.String()
+	type ans struct {
+		r Result
+		m map[*Term]string
+	}
+	ch := make(chan ans, 2)
+	run := func(cmd *exec.Cmd) {
+		cmd.Stdin = strings.NewReader(script)
+		out, _ := cmd.Output()
+		lines := strings.Split(strings.TrimSpace(string(out)), "\n")
+		switch {
+		case len(lines) > 0 && strings.HasPrefix(lines[0], "unsat"):
+			ch <- ans{Unsat, nil}
+		case len(lines) > 0 && strings.HasPrefix(lines[0], "sat"):
+			model := map[*Term]string{}
+			for _, w := range want {
+				if w.IsConst {
+					model[w] = w.str
+				}
+			}
+			parts := splitTop(strings.Join(lines[1:], "\n"))
+			for i, w := range ws {
+				if i >= len(parts) || strings.Contains(parts[i], "(error") {
+					continue
+				}
+				r := strings.TrimSpace(parts[i])
+				r = strings.TrimPrefix(r, "((")
+				r = strings.TrimSuffix(r, "))")
+				if strings.HasPrefix(r, w.str) {
+					r = strings.TrimSpace(r[len(w.str):])
+				}
+				model[w] = r
+			}
+			ch <- ans{Sat, model}
+		default:
+			ch <- ans{Unknown, nil}
+		}
+	}
+	to := s.timeoutS * 2
+	c1 := exec.Command("cvc5", "--strings-exp", "--produce-models", "--tlimit="+strconv.Itoa(to*1000), "-q")
+	c2 := exec.Command("z3-new", "-in", "-T:"+strconv.Itoa(to))
+	go run(c1)
+	go run(c2)
+	a1 := <-ch
+	if a1.r != Unknown {
+		go func() { <-ch }()
+		if c1.Process != nil {
+			c1.Process.Kill()
+		}
+		if c2.Process != nil {
+			c2.Process.Kill()
+		}
+		return a1.r, a1.m
+	}
+	a2 := <-ch
+	return a2.r, a2.m
+}
+
+// splitTop splits a sequence of top-level s-expressions.
+func splitTop(s string) []string {
+	var out []string
+	depth, start, inStr := 0, -1, false
+	for i := 0; i < len(s); i++ {
+		ch := s[i]
+		if inStr {
+			if ch == '"' {
+				inStr = false
+			}
+			continue
+		}
+		switch ch {
+		case '"':
+			inStr = true
+		case '(':
+			if depth == 0 {
+				start = i
+			}
+			depth++
+		case ')':
+			depth--
+			if depth == 0 && start >= 0 {
+				out = append(out, s[start:i+1])
+				start = -1
+			}
+		}
+	}
+	return out
+}
+
 // Check decides satisfiability of the conjunction of fs.
 // If want is non-nil and the result is Sat, model values for those terms are returned.
 // Any "(error" line printed by the solver makes the answer Unknown.
 func (s *Solver) Check(fs []*Term, want []*Term) (Result, map[*Term]string) {
+	return s.check(fs, want, false)
+}
+
+// CheckHard is Check for queries known to be hard for the incremental process (regular-expression
+// domains): they go straight to the one-shot portfolio.
+func (s *Solver) CheckHard(fs []*Term, want []*Term) (Result, map[*Term]string) {
+	return s.check(fs, want, true)
+}
+
+func (s *Solver) check(fs []*Term, want []*Term, hard bool) (Result, map[*Term]string) {
 	t0 := time.Now()
 	defer func() { s.Time += time.Since(t0) }()
 	s.Queries++
@@ -787,6 +936,12 @@ func (s *Solver) Check(fs []*Term, want []*Term) (Result, map[*Term]string) {
 			return Sat, nil
 		}
 	}
+	if hard && s.Name == "cvc5" {
+		r, m := s.oneShot(fs, want)
+		s.Fallbacks++
+		s.Counts[r]++
+		return r, m
+	}
 	s.syncDecls()
 	cmds := []string{"(push 1)"}
 	for _, f := range fs {
@@ -796,7 +951,15 @@ func (s *Solver) Check(fs []*Term, want []*Term) (Result, map[*Term]string) {
 		cmds = append(cmds, "(assert "+f.str+")")
 	}
 	cmds = append(cmds, "(check-sat)")
+	tq := time.Now()
 	resps := s.roundtrip(cmds...)
+	if SlowLog != nil && time.Since(tq) > 40*time.Millisecond {
+		last := cmds[len(cmds)-2]
+		if len(last) > 300 {
+			last = last[:300]
+		}
+		fmt.Fprintf(SlowLog, "SLOW %.0fms %v asserts=%d last=%s\n", float64(time.Since(tq).Milliseconds()), resps, len(cmds)-2, last)
+	}
 	res := Unknown
 	sawErr := false
 	for _, resp := range resps {
@@ -813,6 +976,14 @@ func (s *Solver) Check(fs []*Term, want []*Term) (Result, map[*Term]string) {
 	if sawErr {
 		s.Errors++
 		res = Unknown
+	}
+	if res == Unknown && !sawErr && s.Name == "cvc5" {
+		// the incremental process can get stuck on a query a fresh process decides at once
+		s.roundtrip("(pop 1)")
+		r2, m2 := s.oneShot(fs, want)
+		s.Fallbacks++
+		s.Counts[r2]++
+		return r2, m2
 	}
 	var model map[*Term]string
 	if res == Sat && len(want) > 0 {
